@@ -112,6 +112,62 @@ func ttlsOf05(m *dns.Msg) string {
 }
 
 func runC05(r *Run) {
+	// ---------- a refresh that outlives the 5 s update timeout (an executable that does not watch its context) still
+	// holds the question: runs in the background while the rest of the harness works, collected at the end
+	type stuckRes struct {
+		started, maxInflight int32
+		answered             int
+	}
+	stuckCh := make(chan stuckRes, 1)
+	go func() {
+		c := cache.NewCache(&cache.Args{Size: 1024, LazyCacheTTL: 86400}, cache.Opts{})
+		var inflight, maxInflight, started int32
+		gate := make(chan struct{})
+		node := &sequence.ChainNode{E: sequence.ExecutableFunc(func(ctx context.Context, qCtx *query_context.Context) error {
+			if qCtx.R() != nil {
+				return nil
+			}
+			n := atomic.AddInt32(&inflight, 1)
+			atomic.AddInt32(&started, 1)
+			for {
+				mx := atomic.LoadInt32(&maxInflight)
+				if n <= mx || atomic.CompareAndSwapInt32(&maxInflight, mx, n) {
+					break
+				}
+			}
+			<-gate // deliberately not watching ctx
+			atomic.AddInt32(&inflight, -1)
+			return nil
+		})}
+		next := sequence.NewChainWalker([]*sequence.ChainNode{node}, nil)
+		q := new(dns.Msg)
+		q.SetQuestion("stuck.example.", dns.TypeA)
+		key := cache.VerifGetMsgKey(q)
+		now := time.Now()
+		c.VerifInject(key, msg05(0, false, []rr05{{'a', false, 60}}), now.Add(-100*time.Second), now.Add(-40*time.Second), now.Add(time.Hour))
+		answered := 0
+		ask := func(id uint16) {
+			qq := q.Copy()
+			qq.Id = id
+			qCtx := query_context.NewContext(qq)
+			if err := c.Exec(context.Background(), qCtx, next); err == nil && qCtx.R() != nil {
+				answered++
+			}
+		}
+		ask(1)
+		for j := 0; j < 500 && atomic.LoadInt32(&started) == 0; j++ {
+			time.Sleep(time.Millisecond)
+		}
+		time.Sleep(5300 * time.Millisecond) // the update timeout (5 s) has passed; the first refresh is still running
+		ask(2)
+		ask(3)
+		time.Sleep(50 * time.Millisecond)
+		res := stuckRes{atomic.LoadInt32(&started), atomic.LoadInt32(&maxInflight), answered}
+		close(gate)
+		time.Sleep(5 * time.Millisecond)
+		c.Close()
+		stuckCh <- res
+	}()
 	// ---------- admission and lifetimes
 	nAdm := r.N(1500, 40000)
 	for i := 0; i < nAdm; i++ {
@@ -396,5 +452,15 @@ func runC05(r *Run) {
 			r.Fail("an entry with TTL 2 followed through real time was not served 2,100 at once, 1,99 after 1.2 s and refetched after 2.2 s", map[string]any{"observed ttls(upstream calls)": got})
 		}
 	}
-	r.Finish("admission: rcodes {0,2,3 and others}, TC, lazy on/off, 0..3 records per section with TTLs from {0,1,2,...,2^32-1} incl. an OPT pseudo-record; serving: entries injected with stored/expiry times placed half a second from every boundary (elapsed k+0.5 s, expiries +-(j+0.5 s), in or out of the store), lazy on/off; bursts of 4..15 sequential or concurrent queries on a stale entry with the refresh held; one entry followed through real time; non-trivial = stored / served")
+	if sr := <-stuckCh; true {
+		r.Eval("stuck-refresh", true)
+		r.Count("burst:refresh-outlives-update-timeout")
+		if sr.started > 1 || sr.maxInflight > 1 {
+			r.Fail("more than one background refresh for one question was in flight", map[string]any{"scenario": "the first refresh does not return within the 5 s update timeout; two more stale hits arrive 5.3 s after it started", "refreshes_started": sr.started, "max_in_flight": sr.maxInflight})
+		}
+		if sr.answered != 3 {
+			r.Fail("a query hitting a stale entry was not answered from the cache", map[string]any{"queries": 3, "answered": sr.answered, "scenario": "refresh outlives the update timeout"})
+		}
+	}
+	r.Finish("admission: rcodes {0,2,3 and others}, TC, lazy on/off, 0..3 records per section with TTLs from {0,1,2,...,2^32-1} incl. an OPT pseudo-record; serving: entries injected with stored/expiry times placed half a second from every boundary (elapsed k+0.5 s, expiries +-(j+0.5 s), in or out of the store), lazy on/off; bursts of 4..15 sequential or concurrent queries on a stale entry with the refresh held; one refresh held beyond the 5 s update timeout with further stale hits after it; one entry followed through real time; non-trivial = stored / served")
 }
